@@ -184,7 +184,7 @@ def origin_unsafe_targets(docs, safes):
     return out - safe_origin
 
 
-def taint_kind(cp, target, markers):
+def taint_kind(cp, target, markers, marker=None):
     """how did an unsafe marker reach the call? 'direct' = through a reference whose target node is itself unsafe (or an unsafe argument);
     'nested' = only through references to nodes that are themselves safe but hold unsafe entries (known finding D21)"""
     from awesomeyaml.nodes.function import FunctionNode
@@ -201,7 +201,17 @@ def taint_kind(cp, target, markers):
                         if tq is not None and tq in nodes:
                             kinds.add('direct' if not nodes[tq].ayns.safe else 'nested')
                     elif not m.ayns.safe:
-                        kinds.add('direct')
+                        # an unsafe node inside the call's own argument subtree: D21's mechanism applies when a SAFE container between
+                        # the call and that node is the target of a reference outside the call (so it was evaluated and cached before)
+                        if marker is not None and hasattr(m, '_dyn_base') and m._get_native_value() != marker:
+                            continue
+                        cached = False
+                        for x, xn in nodes.items():
+                            if isinstance(xn, XRefNode) and x[:len(p)] != p:
+                                tx = final_target(nodes, x)
+                                if tx is not None and tx in nodes and len(p) < len(tx) < len(q) and q[:len(tx)] == tx and nodes[tx].ayns.safe:
+                                    cached = True
+                        kinds.add('nested' if cached else 'direct')
     return 'direct' if 'direct' in kinds else 'nested'
 
 
@@ -245,7 +255,7 @@ def judge(case):
         m = contains(list(a), markers) or contains(kw, markers)
         if m:
             return dict(texts=texts, safes=case['safes'], reason='a value originating from unsafe content was passed to a call', target=f, marker=m,
-                        taint=taint_kind(cp, f, markers))
+                        taint=taint_kind(cp, f, markers, m))
     if unsafe_targets - safe_targets and kind == 'ok':
         return dict(texts=texts, safes=case['safes'], reason='the merged tree holds an unsafe dynamic node, yet the build succeeded', unsafe=sorted(unsafe_targets - safe_targets))
     return None
